@@ -661,3 +661,118 @@ def run_memberscope(chk, F, rid="R-MEMBERSCOPE"):
            "the global g; the static form P.g is rejected with $has_no_member_named)" %
            (idp, wide[0].get("l") if wide else "?"), "%s:%s" % (fn["file"], wide[0].get("l") if wide else fn["line"]),
            sample="expr_dot: %d lookups in the operand's own type / frame, none through resolve()" % len(own))
+
+
+# ---------------------------------------------------------------------------------------------- R-DYNKEY
+def run_dynkey(chk, F, rid="R-DYNKEY"):
+    """`p.x` with p bound by a quantifier over a dynamic template: x is looked up in the template of *that* binder - the
+    symbol p resolves to by scope.  The builder keeps binder -> template frame in a side table; a table keyed by the
+    name of the binder lets an inner binder of the same name replace (and at its end erase) the outer one's entry (found by
+    a defect-hunt sub-agent, E07-2), and a name-keyed sequence searched from the front finds the outermost namesake
+    (round 7)."""
+    from ..inline import strip
+    chk.rule(rid, "ExpressionBuilder::expr_dot finds the template of a dynamic process variable by the *symbol* of the "
+                  "variable (the side table is keyed by symbol_t), or searches a scope-ordered sequence of (name, frame) "
+                  "innermost first")
+    rec = F.records.get("UTAP::ExpressionBuilder") or {}
+    fld = [f for f in rec.get("fields", []) if f.get("name") == "dynamicFrames"]
+    if not fld:
+        # the table was renamed: find the member expr_dot searches for the PROCESS_VAR operand
+        raise AnalysisBroken("ExpressionBuilder::dynamicFrames not found")
+    ct = fld[0].get("ct") or fld[0].get("t") or ""
+    fn = F.resolve_method("UTAP::ExpressionBuilder", "expr_dot")
+    lookups = [c for c in calls(fn["body"]) if "dynamicFrames" in short(c) and c.get("name") in
+               ("find", "find_if", "at", "operator[]", "count", "contains", "rbegin", "crbegin")]
+    if not lookups:
+        raise AnalysisBroken("expr_dot: no lookup in dynamicFrames found")
+    by_symbol = "map<UTAP::symbol_t" in ct.replace(" ", "") or "map<symbol_t" in ct.replace(" ", "")
+    reverse = any(c.get("name") in ("rbegin", "crbegin") for c in lookups) or \
+        any(x.get("name") in ("rbegin", "crbegin", "rend", "crend") for c in lookups for x in calls(c.get("args", [])))
+    keyed_by_name = any(any(y.get("name") == "get_name" for y in calls(c.get("args", []))) for c in lookups) or \
+        any(l.get("k") == "lambda" and any(y.get("name") == "get_name" for y in calls(l.get("body"))) for c in lookups
+            for l in walk(c.get("args", [])))
+    ok = (by_symbol and not keyed_by_name) or (keyed_by_name and reverse)
+    chk.ob(rid, "expr_dot|dynamic binder table", ok,
+           "the template of a dynamic process variable is found by the NAME of the variable (table type `%s`, lookup `%s`): "
+           "with nested binders of the same name - forall (p : A) ((exists (p : B) p.y) && p.x > 0) - the lookup answers "
+           "with the wrong binder's template, or the inner binder takes the outer one's entry away" %
+           (ct[:70], short(lookups[0])[:60]), "%s:%s" % (fn["file"], lookups[0].get("l")),
+           sample="dynamicFrames is keyed by the binder's symbol" if by_symbol else "name-keyed sequence searched innermost first")
+
+
+# ---------------------------------------------------------------------------------------------- R-CURCLEAR
+def current_clear(chk, F, G, rid="R-CURCLEAR"):
+    """The XML reader parses the blocks of a template (its declarations, the labels of its locations and edges) one by one
+    between proc_begin and proc_end; the callbacks that follow - proc_location, proc_edge_begin .. - dereference
+    currentTemplate.  A block parsed in there whose grammar can reach a callback that *writes* currentTemplate (proc_begin /
+    proc_end of a nested process definition, decl_dynamic_template) takes the open template away.  Seen by a round-7
+    sub-agent on the unmodified tree: the <declaration> of a template was parsed with the grammar of the global
+    declarations, so `dynamic X();` or `process Q() {..}` in it reset currentTemplate and the next proc_location crashed."""
+    from ..inline import strip
+    from . import driver as drv, routing
+    chk.rule(rid, "every part that XMLReader parses while a template is open (the parse calls reachable from templ / lscTempl "
+                  "after proc_begin, with the part argument followed through parameters) has a grammar none of whose "
+                  "callbacks assigns DocumentBuilder::currentTemplate")
+    parts = drv.start_tokens(F)
+    # callbacks that write currentTemplate
+    writers = set()
+    for fn in F.functions.values():
+        if (fn.get("cls") or "").endswith("DocumentBuilder") and fn.get("body") is not None:
+            for x in walk(fn["body"]):
+                if x.get("k") == "bin" and x.get("op") == "=":
+                    l = strip(x["lhs"])
+                    if isinstance(l, dict) and l.get("k") == "member" and l.get("name") == "currentTemplate":
+                        writers.add(fn["name"])
+    if "proc_begin" not in writers or "proc_end" not in writers:
+        raise AnalysisBroken("R-CURCLEAR: proc_begin / proc_end do not assign currentTemplate (%s)" % sorted(writers))
+    # parts parsed inside a template: walk XMLReader from templ / lscTempl, binding `part` parameters to arguments
+    XR = "UTAP::XMLReader"
+    inside = {}
+
+    def visit(fn, env, depth, seen):
+        if fn is None or fn.get("body") is None or depth > 4:
+            return
+        for c in calls(fn["body"]):
+            if c.get("cls") != XR:
+                continue
+            if c.get("name") == "parse":
+                for a in c.get("args", []):
+                    for x in walk(a["e"] if isinstance(a, dict) and a.get("k") == "defarg" else a):
+                        if x.get("dk") == "enumerator" and x.get("name", "").startswith("S_"):
+                            inside.setdefault(x["name"], "%s:%s" % (fn["file"], c.get("l")))
+                        if x.get("k") == "ref" and x.get("dk") == "param" and x.get("name") in env:
+                            inside.setdefault(env[x["name"]], "%s:%s" % (fn["file"], c.get("l")))
+                continue
+            t = F.resolve_method(XR, c.get("name"), len(c.get("args", [])))
+            if t is None or t.get("body") is None or (t["q"], tuple(sorted(env.items()))) in seen:
+                continue
+            env2 = {}
+            for p_, a in zip(t.get("params", []), c.get("args", [])):
+                a0 = a["e"] if isinstance(a, dict) and a.get("k") == "defarg" else a
+                for x in walk(a0):
+                    if x.get("dk") == "enumerator" and x.get("name", "").startswith("S_"):
+                        env2[p_["name"]] = x["name"]
+                    if x.get("k") == "ref" and x.get("dk") == "param" and x.get("name") in env:
+                        env2[p_["name"]] = env[x["name"]]
+            seen.add((t["q"], tuple(sorted(env2.items()))))
+            visit(t, env2, depth + 1, seen)
+    for entry in ("templ", "lscTempl"):
+        visit(F.resolve_method(XR, entry), {}, 0, set())
+    if len(inside) < 5:
+        raise AnalysisBroken("R-CURCLEAR: parts parsed inside a template: only %s" % sorted(inside))
+    for part in sorted(inside):
+        toks = parts.get(part)
+        if not toks:
+            raise AnalysisBroken("R-CURCLEAR: no start token for part %s" % part)
+        names = set()
+        for tok in toks:
+            for r in G.rules:
+                if r.lhs == "Uppaal" and r.rhs and r.rhs[0] == tok:
+                    names |= set(routing.reachable_calls(G, r))
+        bad = sorted(names & writers)
+        chk.ob(rid, "templ|%s" % part, not bad,
+               "XMLReader parses the part %s while a template is open (%s), and the grammar of that part can call %s, which "
+               "assign currentTemplate: `dynamic X();` or a process definition inside the <declaration> of a template takes "
+               "the open template away, and the next proc_location dereferences a null pointer" %
+               (part, inside[part], ", ".join(bad)), inside[part],
+               sample="%s (parsed inside a template): %d callbacks, none assigns currentTemplate" % (part, len(names)))
